@@ -296,3 +296,43 @@ def r19_with_capacity(u, key, text):
         u.rules['R19'] += n
         text = re.sub(r'\bVec::with_capacity\(', 'vec_with_capacity(', text)
     return text
+
+
+def flatten_paths(mods):
+    """single-file unit: `tokens::X` / `digits::X` module prefixes of sliced sibling modules are dropped"""
+    def rule(u, key, text):
+        for m in mods:
+            n = len(re.findall(r'(?<![A-Za-z0-9_:])%s::' % m, text))
+            if n:
+                u.rules['module-path-flattened'] += n
+                text = re.sub(r'(?<![A-Za-z0-9_:])%s::' % m, '', text)
+        return text
+    return rule
+
+
+def r20_param_patterns(u, key, text):
+    """R20: a tuple-struct pattern in parameter position `Name(x): Name` (unsupported by the Verus macro) becomes
+    a plain parameter `r20_x: Name` and `let Name(x) = r20_x;` as first statement of the body."""
+    head_end = text.index('{')
+    head = text[:head_end]
+    found = []
+
+    def repl(m):
+        found.append((m.group(1), m.group(2)))
+        return 'r20_%s: %s' % (m.group(2), m.group(1))
+    head2 = re.sub(r'\b([A-Z]\w*)\((\w+)\)\s*:\s*\1\b', repl, head)
+    if not found:
+        return text
+    lets = ''.join('\n\t\tlet %s(%s) = r20_%s;' % (ty, x, x) for ty, x in found)
+    u.rules['R20'] += len(found)
+    return head2 + '{' + lets + text[head_end + 1:]
+
+
+def r21_cmp_minmax(u, key, text):
+    """R21: `std::cmp::max(a, b)` / `std::cmp::min(a, b)` on usize operands -> verified helpers usize_max / usize_min
+    (core::cmp::{max,min} are generic over Ord; vstd has no spec for them)."""
+    n = len(re.findall(r'\bstd::cmp::(max|min)\(', text))
+    if n:
+        u.rules['R21'] += n
+        text = re.sub(r'\bstd::cmp::(max|min)\(', r'usize_\1(', text)
+    return text
